@@ -178,17 +178,15 @@ class WorkloadGenerator(Workload):
                     op = p.new_operator([prev_op] if prev_op else None)
                     # Segments are 1:1 with operators in current execution
                     curr_num_segs = 1
-                    prev_seg = None
                     for j in range(curr_num_segs):
                         # If first node, make it the most IO bound, else have it
                         # draw randomly from all other segment types
-                        if prev_seg is None:
+                        if prev_op is None:
                             seg = self.generate_segment_from_val(-2)
                             op.add_segment(seg)
                         else:
                             seg = self.generate_segment_not_heavy_io()
                             op.add_segment(seg)
-                        prev_seg = seg
                     prev_op = op
 
                 logger.info(f"Pipeline {pipeline_id} generated with Priority {Priority(priority)} and {curr_num_ops} ops")
